@@ -90,7 +90,22 @@ impl Formatter {
     }
 
     pub fn format(&mut self, src: Source) -> Result<FormattedCode, FormatterError> {
-        let annotated_module = parse_file(src, self.experimental)?;
+        // The comment map and the newline map are built from the trimmed text of the module and are
+        // searched with the byte spans of its AST. Leading whitespace must therefore be removed before
+        // parsing, otherwise every span is shifted against the maps (comments and blank lines get lost,
+        // or slicing the trimmed text panics). Newline sequences are recognized by `\n` only, so
+        // Windows line endings are normalized as well; the configured `NewlineStyle` is applied to the
+        // whole formatted text at the end in any case.
+        let normalized = (src.text.starts_with(char::is_whitespace) || src.text.contains("\r\n"))
+            .then(|| Source::new(&src.text.trim_start().replace("\r\n", "\n")));
+        let annotated_module = match normalized {
+            Some(normalized) => match parse_file(normalized, self.experimental) {
+                Ok(annotated_module) => annotated_module,
+                // report syntax errors with the positions of the text as given
+                Err(_) => parse_file(src, self.experimental)?,
+            },
+            None => parse_file(src, self.experimental)?,
+        };
         self.format_module(&annotated_module)
     }
 
